@@ -1094,7 +1094,11 @@ func calleeMatches(full, pat string) bool {
 		}
 		return pre + star + rest
 	}
-	return norm(full) == norm(pat)
+	if norm(full) == norm(pat) {
+		return true
+	}
+	// a bare function name refers to a function of any package with that name
+	return !strings.ContainsAny(pat, "./(") && strings.HasSuffix(full, "."+pat)
 }
 
 // addressTakenFuncs lists the repository functions (including closures) with the
@@ -1391,4 +1395,17 @@ func (e *Engine) pureIfaceFor(fn *ssa.Function) *types.Named {
 		}
 	}
 	return nil
+}
+
+// inRepo: fn belongs to a package of the repository under verification.
+func (e *Engine) inRepo(fn *ssa.Function) bool {
+	p := fn.Pkg
+	if p == nil && fn.Origin() != nil {
+		p = fn.Origin().Pkg
+	}
+	for q := fn; p == nil && q.Parent() != nil; {
+		q = q.Parent()
+		p = q.Pkg
+	}
+	return p != nil && strings.HasPrefix(p.Pkg.Path(), repoModule)
 }
